@@ -100,10 +100,16 @@ func (e tentry) goFrame() frame.Frame {
 	return fr
 }
 
+const goZeroTimeSec = -62135596800 // time.Time{}.Unix()
+
 func genEntry(r *rand.Rand, drw *dialect.ReadWriter, com *dialect.Dialect, ix map[reflect.Type]int, small []message.Message) tentry {
 	var e tentry
 	// times before / after 1970, at sub-microsecond offsets around microsecond boundaries
-	switch r.Intn(8) {
+	zeroTime := false
+	switch r.Intn(9) {
+	case 8:
+		// the zero value of time.Time (1 January of year 1, UTC) is an instant like any other: -62135596800 s
+		e.sec, zeroTime = goZeroTimeSec, true
 	case 0:
 		e.sec = 0
 	case 1:
@@ -132,6 +138,9 @@ func genEntry(r *rand.Rand, drw *dialect.ReadWriter, com *dialect.Dialect, ix ma
 		e.nsec = 1000*r.Intn(1000000) + 1
 	default:
 		e.nsec = r.Intn(1000000000)
+	}
+	if zeroTime && r.Intn(3) != 0 {
+		e.nsec = []int{0, 0, 1, 1000}[r.Intn(4)] // the zero value itself, and its neighbours
 	}
 	v := 1 + r.Intn(2)
 	e.f = mkFrame(r, v, v == 2 && r.Intn(3) == 0, []int{0, 1, 3, 20, 255}[r.Intn(5)])
@@ -200,6 +209,10 @@ func cmdTlog(o opts) {
 		var entries []tentry
 		for i := 0; i < n; i++ {
 			entries = append(entries, genEntry(r, drw, com, ix, small))
+		}
+		if l < 3 {
+			// every run has it, with and without a dialect: an entry whose time is the zero value of time.Time
+			entries[0].sec, entries[0].nsec = goZeroTimeSec, 0
 		}
 		// unencodable entries at a seeded position of some logs
 		bad := -1
